@@ -258,19 +258,58 @@ func NameOfCode(v int64) string {
 // that length is bound to the value, so that a native replay sees what the
 // path assumed.
 func NameOfCodeVar(name string, v int64, model map[string]string) string {
-	want := -1
-	if lv, ok := model["(clen "+name+")"]; ok {
-		if n, ok := ParseIntValue(lv); ok && n >= 1 && n <= 5 {
-			want = int(n)
+	// clen / cfirst are functions of the code value: take them from any
+	// variable of the model that has this value
+	want, firstCh := -1, int64(0)
+	for k, mv := range model {
+		if len(k) < 4 || k[0] != 'c' || k[2] != '_' {
+			continue
+		}
+		if n, ok := ParseIntValue(mv); !ok || n != v {
+			continue
+		}
+		if lv, ok := model["(clen "+k+")"]; ok && want < 0 {
+			if n, ok := ParseIntValue(lv); ok && n >= 1 && n <= 5 {
+				want = int(n)
+			}
+		}
+		if fv, ok := model["(cfirst "+k+")"]; ok && firstCh == 0 {
+			// the code under test read the first character: realise it
+			if n, ok := ParseIntValue(fv); ok && (n == '_' || n >= 'A' && n <= 'Z' || n >= 'a' && n <= 'z') {
+				firstCh = n
+			}
 		}
 	}
-	litMu.Lock()
-	if s, ok := litNames[v]; ok {
+	if want < 0 && firstCh == 0 || v < 1048576 {
+		litMu.Lock()
+		s, ok := litNames[v]
 		litMu.Unlock()
+		if ok || want < 0 {
+			return NameOfCode(v)
+		}
+		_ = s
+	}
+	first := "ZQXJKVWYHGFBDCMNPRSTLAEIOUzqxjkvwyhgfbdcmnprstlaeiou"
+	if firstCh != 0 {
+		first = string(rune(firstCh))
+		if want < 0 {
+			want = 4
+		}
+	}
+	key := fmt.Sprintf("%d/%d/%d", v, want, firstCh)
+	litMu.Lock()
+	defer litMu.Unlock()
+	if s, ok := realised[key]; ok {
 		return s
 	}
-	if want > 0 && v >= 0 {
-		const first = "ZQXJKVWYHGFBDCMNPRSTLAEIOUzqxjkvwyhgfbdcmnprstlaeiou"
+	fits := func(s string) bool {
+		return len(s) == want && (firstCh == 0 || int64(s[0]) == firstCh)
+	}
+	if s, ok := litNames[v]; ok && fits(s) {
+		realised[key] = s
+		return s
+	}
+	if v >= 0 {
 		const rest = "0123456789abcdefghijklmnopqrstuvwxyzABCDEFGHIJKLMNOPQRSTUVWXYZ"
 		for try := int64(0); try < 4000; try++ {
 			x := v + try*7919
@@ -284,14 +323,28 @@ func NameOfCodeVar(name string, v int64, model map[string]string) string {
 			if _, used := litCodes[s]; used || reservedWords[s] {
 				continue
 			}
-			litNames[v], litCodes[s] = s, v
-			litMu.Unlock()
+			// several names may stand for one value (one per realised
+			// length / first character); every name stands for one value
+			litCodes[s] = v
+			if _, ok := litNames[v]; !ok {
+				litNames[v] = s
+			}
+			realised[key] = s
 			return s
 		}
 	}
-	litMu.Unlock()
-	return NameOfCode(v)
+	if s, ok := litNames[v]; ok {
+		return s
+	}
+	s := fmt.Sprintf("Zv%dq", v)
+	if _, used := litCodes[s]; !used && v >= 0 {
+		litNames[v], litCodes[s] = s, v
+	}
+	return s
 }
+
+// realised: (value, length, first character) -> the name bound to it.
+var realised = map[string]string{}
 
 // NewEnumCode declares an Int-coded atom (class 'T') that ranges over an
 // explicit set of literals.
